@@ -7,6 +7,11 @@ depth, `_accept_slice_impl` index bookkeeping).
 Search: every listed reduction on the real code vs NumPy over shapes x chunkings x axis x
 keepdims x split_every x dtypes x NaN placements; slices pushed through reductions (optimized
 and unoptimized graphs).  Oracle = NumPy only (independent of the model).
+Planned streams (harness/props_ext/c18_extremes.py, run first in every search): NaN cells placed per BLOCK and per
+LANE (all-NaN lane inside one block / a run of blocks, mixed lane holding the extremum, NaN blocks, block edges) for
+every nan-aware / arg / NaN-propagating reduction on rank 2-3 with explicit axes; DTYPE EXTREMES (unsigned with zeros,
+signed min/max, bool, float32/64 with +-inf / NaN / -0.0, complex, wide ints, explicit integer dtype=, topk/argtopk
+k>0 / k<0 / |k| up to the lane length on sparse lanes, integer-weighted average) with the exact NumPy dtype.
 """
 from __future__ import annotations
 
@@ -372,6 +377,11 @@ COMPLEX_OK = {"sum", "prod", "mean", "var", "std", "any", "all", "count_nonzero"
 def make_data(case):
     if "literal" in case:
         return np.array(case["literal"], dtype=case["dtype"])
+    if "plan" in case:
+        # special cells placed per block / per lane, dtype extremes: harness/props_ext/c18_extremes.py
+        from harness.props_ext import c18_extremes
+
+        return c18_extremes.planned_data(case)
     rg = np.random.default_rng(case["data_seed"])
     shape = tuple(case["shape"])
     dt = case["dtype"]
@@ -461,9 +471,17 @@ def call_pair(case, da, x, a):
     if red == "average":
         return da.average(x, axis=axis, keepdims=kd), (lambda: np.average(a, axis=axis, keepdims=kd))
     if red == "average_w":
-        w = np.random.default_rng(case["data_seed"] + 1).integers(1, 5, size=a.shape[axis]).astype(float)
+        if "wdtype" in case:
+            from harness.props_ext import c18_extremes
+
+            w = c18_extremes.weights_for(case, a.shape[axis])
+        else:
+            w = np.random.default_rng(case["data_seed"] + 1).integers(1, 5, size=a.shape[axis]).astype(float)
         wd = da.from_array(w, chunks=(tuple(case["chunks"][axis % a.ndim]),))
         return da.average(x, axis=axis, weights=wd, keepdims=kd), (lambda: np.average(a, axis=axis, weights=w, keepdims=kd))
+    if case.get("rdtype"):
+        # explicit accumulator dtype (sum / prod family): NumPy wraps in that dtype, so must every tree
+        dkw["dtype"] = kw["dtype"] = np.dtype(case["rdtype"])
     return getattr(da, red)(x, axis=axis, **dkw), (lambda: getattr(np, red)(a, axis=axis, **kw))
 
 
@@ -515,11 +533,22 @@ def check_case(ctx, case, count=True):
         akind = "none" if axis is None else ("int" if isinstance(axis, int) else f"tuple{len(axis)}")
         se = case.get("split_every")
         skind = "none" if se is None else ("int%d" % se if isinstance(se, int) else "dict")
-        ctx.count((red, case["dtype"], case.get("nan", "none"), akind, bool(case.get("keepdims")), skind, len(case["shape"]),
-                   max(len(c) for c in chunks) if chunks else 0, has_empty_reduced_chunk(case)))
+        key = (red, case["dtype"], case.get("nan", "none"), akind, bool(case.get("keepdims")), skind, len(case["shape"]),
+               max(len(c) for c in chunks) if chunks else 0, has_empty_reduced_chunk(case))
+        if "plan" in case:
+            from harness.props_ext import c18_extremes
+
+            key += c18_extremes.plan_tag(case)
+        ctx.count(key)
     if np_exc is not None:
-        # NumPy does not define a result (all-NaN nanarg*, empty min, …): nothing to compare
+        # NumPy does not define a result (all-NaN nanarg*, empty min, …): nothing to compare …
         ctx.notes["numpy_undefined"] = ctx.notes.get("numpy_undefined", 0) + 1
+        if (red in ("nanargmin", "nanargmax") and isinstance(np_exc, ValueError) and "All-NaN" in str(np_exc) and exc is None
+                and not any(0 in c for c in chunks)):
+            # … except that an index must not be invented for a lane without any number: NumPy refuses, so must the tree
+            ctx.fail(f"reduction:{red}:all-nan-lane-not-refused", dict(case, got=_short(got), numpy_error=repr(np_exc)[:200]),
+                     "nanarg-reduction returns an index for an all-NaN lane where NumPy raises ValueError")
+            return False
         return True
     if exc is not None:
         if any(0 in c for c in chunks):
@@ -531,6 +560,10 @@ def check_case(ctx, case, count=True):
         sig = f"reduction:{red}:raises"
         if red == "argtopk" and abs(case["k"]) == a.shape[case["axis"]] and len(chunks[case["axis"]]) > 1:
             sig = "reduction:argtopk:abs-k-equals-axis-length-raises"
+        elif red in ("nanargmin", "nanargmax") and isinstance(exc, ValueError) and "All NaN" in str(exc) and _lane_only_nan_and_inf(case, a):
+            # NumPy documents nanarg* as untrustworthy on lanes of only NaN and inf (it answers with the index of a NaN);
+            # the tree refuses such a lane when a block holding only its NaNs precedes the block with the inf
+            sig = "reduction:nanarg:lane-of-only-nan-and-inf-raises"
         ctx.fail(sig, dict(case, error=repr(exc)[:300], want=_short(want)), "reduction raises where NumPy returns a value")
         return False
     sig = None
@@ -541,8 +574,12 @@ def check_case(ctx, case, count=True):
         sig, what = "reduction:argtopk:dtype", f"dtype {got.dtype} / advertised {r.dtype}, expected an integer index dtype"
     elif red != "argtopk" and (got.dtype.kind != want.dtype.kind or r.dtype.kind != want.dtype.kind):
         sig, what = f"reduction:{red}:dtype", f"dtype {got.dtype} / advertised {r.dtype} vs NumPy {want.dtype}"
+    elif red != "argtopk" and "plan" in case and red not in ARG_REDS and (got.dtype != want.dtype or r.dtype != want.dtype):
+        # planned (dtype-extreme) cases: the exact NumPy dtype, not only its kind (index dtypes of arg-reductions excepted)
+        sig, what = f"reduction:{red}:dtype-exact", f"dtype {got.dtype} / advertised {r.dtype} vs NumPy {want.dtype}"
     else:
-        exact = (case["dtype"] in ("int64", "bool") and red in EXACT_INT) or (case["dtype"] in ("float64", "complex128") and red in EXACT_FLOAT)
+        dkind = np.dtype(case["dtype"]).kind
+        exact = (dkind in "iub" and red in EXACT_INT) or (dkind in "fc" and red in EXACT_FLOAT)
         if red == "argtopk":
             # indices are not unique under ties: compare the values they select, and validity
             axis = case["axis"]
@@ -567,10 +604,13 @@ def check_case(ctx, case, count=True):
                 scale = max(1.0, float(fin.sum()) if fin.size else 1.0)
             if red in ("prod", "nanprod"):
                 scale = 0.0
+            # single precision (data or result): NumPy itself accumulates in float32; tolerance from the format
+            single = any(np.dtype(d).kind in "fc" and np.finfo(d).bits == 32 for d in (a.dtype, want.dtype, got.dtype))
+            rtol, arel = (3e-4, 3e-5) if single else (1e-7, 1e-9)
             try:
-                np.testing.assert_allclose(got, want, rtol=1e-7, atol=1e-9 * scale, equal_nan=True)
+                np.testing.assert_allclose(got, want, rtol=rtol, atol=arel * scale, equal_nan=True)
             except AssertionError:
-                sig, what = f"reduction:{red}:value", "reduction differs from NumPy beyond rtol=1e-7"
+                sig, what = f"reduction:{red}:value", f"reduction differs from NumPy beyond rtol={rtol}"
     if sig is None:
         return True
     # classification of the two classes that are reproduced on the unchanged tree (see known_findings)
@@ -582,8 +622,46 @@ def check_case(ctx, case, count=True):
             sig = "reduction:arg-ravel:tie-not-first-in-C-order"
     elif red in MINMAX and any(0 in c for c in chunks) and not has_empty_reduced_chunk(case) and sig.endswith((":shape", ":value")):
         sig = "reduction:minmax:zero-length-chunk-on-kept-axis"
+    elif red == "average_w" and sig.endswith(":value") and _average_int_product_wraps(case, a, got):
+        sig = "reduction:average:integer-weights-product-formed-in-integer-dtype"
     ctx.fail(sig, dict(case, got=_short(got), want=_short(want)), what)
     return False
+
+
+def _lane_only_nan_and_inf(case, a):
+    """some lane along the reduced axes consists of NaN and of the infinity that loses the comparison (+inf for
+    nanargmin, -inf for nanargmax), at least one of each, and nothing else."""
+    if a.dtype.kind != "f" or not a.size:
+        return False
+    axis = case["axis"]
+    axes = tuple(range(a.ndim)) if axis is None else ((axis % a.ndim,) if isinstance(axis, int) else tuple(x % a.ndim for x in axis))
+    inf = np.inf if case["red"] == "nanargmin" else -np.inf
+    nan, isinf = np.isnan(a), a == inf
+    lane = (nan | isinf).all(axis=axes) & nan.any(axis=axes) & isinf.any(axis=axes)
+    return bool(np.any(lane))
+
+
+def _average_int_product_wraps(case, a, got):
+    """True when `got` is what the weighted average gives if the product a*w is formed in the INTEGER result type of
+    (a, w) (wrapping) instead of NumPy's result_type(a, w, float64): the listed class, nothing else."""
+    from harness.props_ext import c18_extremes
+
+    if "wdtype" not in case or a.dtype.kind not in "iub":
+        return False
+    axis = case["axis"] % a.ndim
+    w = c18_extremes.weights_for(case, a.shape[axis])
+    if w.dtype.kind not in "iub":
+        return False
+    shp = [1] * a.ndim
+    shp[axis] = -1
+    with np.errstate(all="ignore"):
+        prod = np.multiply(a, w.reshape(shp))  # integer result type, wraps
+        emu = prod.astype("f8").sum(axis=axis, keepdims=bool(case.get("keepdims"))) / w.sum(dtype="f8")
+        # wrapped products cancel: absolute tolerance from the magnitude of the summands
+        mag = float((np.abs(prod.astype("f8")).sum(axis=axis) / w.sum(dtype="f8")).max()) if prod.size else 0.0
+    exact = np.average(a, axis=axis, weights=w, keepdims=bool(case.get("keepdims")))
+    return (got.shape == emu.shape and bool(np.allclose(got, emu, rtol=1e-7, atol=1e-12 * mag, equal_nan=True))
+            and not np.allclose(emu, exact, rtol=1e-7, atol=0))
 
 
 def _eq(x, y):
@@ -698,6 +776,13 @@ def search(ctx):
                 if red in ("topk", "argtopk"):
                     case["k"] = rng.choice([2, -2, 3])
                 check_case(ctx, case)
+    # special cells placed per block / per lane; dtype extremes (harness/props_ext/c18_extremes.py)
+    from harness.props_ext import c18_extremes
+
+    c18_extremes.nan_stream(ctx, check_case)
+    c18_extremes.extreme_stream(ctx, check_case)
+    ctx.notes["t.planned_streams_s"] = round(ctx.elapsed() - t_start, 1)
+    t_start = ctx.elapsed()
     for _ in range(per):
         for red in REDUCTIONS:
             case = rand_case(ctx, red, rng)
@@ -921,6 +1006,17 @@ def probe_known(ctx):
     case = {"red": "max", "shape": [2, 6, 2], "chunks": [[2], [1, 4, 1], [2]], "axis": 0, "keepdims": False, "split_every": None,
             "dtype": "int64", "nan": "none", "data_seed": 0, "literal": np.arange(24).reshape(2, 6, 2).tolist(), "index": ["0:3:3", 0]}
     check_slice_case(ctx, case)
+    # (7) weighted average of integer data with integer weights: the product a*w was formed in the integer result type
+    #     (int8 100*100 wraps) where NumPy forms it in result_type(a, w, float64); repaired in /repo 9a7395b (kind=fixed),
+    #     kept as a regression probe; the dtype-extremes stream keeps generating integer x integer weighted averages
+    case = {"red": "average_w", "shape": [2], "chunks": [[1, 1]], "axis": 0, "keepdims": False, "split_every": None, "dtype": "int8",
+            "nan": "none", "data_seed": 0, "literal": [100, 100], "wdtype": "int8", "wliteral": [100, 50]}
+    check_case(ctx, case)
+    # (8) nanargmin of a lane made of NaN and +inf only (nanargmax: NaN and -inf) with the NaN in an earlier block than the
+    #     inf: raises "All NaN slice encountered" (one block: NumPy's answer, the index of the NaN)
+    case = {"red": "nanargmin", "shape": [2], "chunks": [[1, 1]], "axis": 0, "keepdims": False, "split_every": None, "dtype": "float64",
+            "nan": "none", "data_seed": 0, "literal": [float("nan"), float("inf")]}
+    check_case(ctx, case)
     # (3) argtopk with |k| == axis length spread over several chunks
     case = {"red": "argtopk", "shape": [2], "chunks": [[1, 1]], "axis": 0, "keepdims": False, "split_every": None, "dtype": "int64",
             "nan": "none", "data_seed": 1, "k": 2}
@@ -991,7 +1087,11 @@ def run(ctx, replay=None):
         "correspondence: exhaustive small numblocks x split_every (both keepdims) + seeded random larger; a case is distinct by "
         "(family, model output prefix, request size class). search: per reduction, seeded random (shape, chunking incl. 0/1-length, axis in "
         "{None,int,negative,tuple}, keepdims, split_every in {None,int,dict}, dtype, NaN placement); distinct by (reduction, dtype, NaN "
-        "placement, axis kind, keepdims, split_every kind, rank, max numblocks, empty chunk on a reduced axis); slices: (reduction, keepdims, index kinds, axis)"
+        "placement, axis kind, keepdims, split_every kind, rank, max numblocks, empty chunk on a reduced axis); slices: (reduction, keepdims, index kinds, axis). "
+        "planned streams: (reduction x NaN move set [lane-in-block, mixed lane, NaN block, block edges, lane-in-run, global lane, scatter, all]) on rank 2-3, "
+        "explicit axes; (reduction x dtype in {u8..u64, i8..i64, bool, f32, f64, c64, c128} x value mode [sparse, pool of dtype limits, wide, small, specials]); "
+        "topk/argtopk x dtype x |k| class {1,2,3,n-1,n} x sign; distinct additionally by (plan kind, moves / mode, specials, k class, dtype=, weight dtype). "
+        "topk with |k| > lane length has no NumPy meaning and is not generated"
     )
     ctx.assumptions = [
         "element arithmetic of NumPy kernels is the abstract (associative) operation; floats are compared with rtol=1e-7 and are search-only",
